@@ -205,7 +205,7 @@ pub fn body<D: Dd>(c: &DdCase) {
     let cutoff = PollCutoff::never();
     let cache = EmptyCache::new();
     let dominance = EmptyDominanceChecker::default();
-    if want(c, "C09") && c.props.len() == 1 {
+    if c.props.first().map(|p| p == "C09").unwrap_or(false) {
         return body_c09::<D>(c, &t, &root_sp, lb, l0);
     }
 
@@ -486,7 +486,13 @@ fn body_c09<D: Dd>(c: &DdCase, t: &Table, root_sp: &SubProblem<St>, lb: Cost, _l
         if std::env::var("SYMX_TRACE").is_ok() {
             eprintln!("step {} node=({:?},{}) value={:?} best_lb={:?} open={:?}", step, node.state, node.depth, node.value, best_lb, open.iter().map(|o| (*o.state, o.depth, o.value, o.ub)).collect::<Vec<_>>());
         }
-        check_thresholds(t, &cache, &open, best_lb);
+        if c.props.iter().any(|p| p == "C09") {
+            check_thresholds(t, &cache, &open, best_lb);
+        }
+        if c.props.iter().any(|p| p == "C20") {
+            // diagrams compiled against a NON-empty cache (nodes pruned by a threshold exist)
+            viz::check(&dd, t, c.viz_all, dd.best_value().is_some());
+        }
         if open.is_empty() || step == c.history.min(4) {
             break;
         }
